@@ -14,16 +14,23 @@
                     computes minLiveWALNum from the per-height file sets directly)
      pebble wal.Reader: batches whose sequence number is not above the last one returned from the
                     same file are skipped.
-   Record framing (Pebble record chunks + CRC) is abstracted: a file is a list of complete batch
+   Record framing (Pebble record chunks + CRC) is not part of THIS file: a file is a list of complete batch
    records plus a flag [ftorn] = "bytes that do not form a complete valid record follow" (a strict
-   prefix of a record, a record with a corrupted byte, a partial EOF trailer).  The abstraction is the
-   hypothesis frame_detects_torn of DESIGN §6: the reader reports such a tail as invalid and returns
-   every complete record intact.  A complete EOF trailer reads as a clean end of file and is not
-   represented.
+   prefix of a record, a record with a corrupted byte, a partial EOF trailer).  That this is what the
+   reader makes of the bytes of a log file - every complete record intact, an incomplete tail reported
+   invalid - was the hypothesis frame_detects_torn of DESIGN section 6; it is now modelled at byte level in
+   Frame.v and proved in Proofs_frame.v for every byte prefix of a written file (C14_frame_detects_torn,
+   C14_frame_inflight_images; abstraction function [file_of_bytes] below).  A complete EOF trailer reads
+   as a clean end of file and is not represented here.
 
    A crash is an outcome of an operation ([FCrash cp], [Close true], or [Reopen] of a store that was
    not closed): the disk stays in the intermediate state named by the crash point, memory is lost. *)
 From Coq Require Import List NArith Bool.
+(* the byte-level framing of one log file (Pebble record chunks, CRC, block padding, EOF trailer) is
+   modelled in Frame.v; [file_of_bytes] at the end of this file is the abstraction function from the bytes
+   of a log file to the [file] of this model, and Proofs_frame.v proves that on every byte prefix of a
+   written file it yields complete batches + the flag [ftorn] (the former hypothesis frame_detects_torn) *)
+From V Require C14.Frame.
 Import ListNotations.
 Open Scope N_scope.
 
@@ -354,3 +361,11 @@ Definition no_revive_ok (ack : list rec) (obs : list (N * N)) : bool :=
 
 Definition reopen_obs (d : disk) : option (list (N * N)) :=
   match open d with Some (_, m) => Some (load m) | None => None end.
+
+(* ---------- from the bytes of a log file to the [file] of this model ---------- *)
+(* [crc] is Pebble's chunk checksum, [dec_batch] the decoder of walstore's batch encoding (codec.go over
+   batchrepr); both are parameters: the theorems of Proofs_frame.v hold for every checksum function and
+   need only  dec_batch (enc_batch b) = b . The log number in the chunk headers is uint32(file number). *)
+Definition file_of_bytes (crc : Frame.bytes -> N) (dec_batch : Frame.bytes -> batch) (num : N) (b : Frame.bytes) : file :=
+  let '(recs, st) := Frame.decode crc (num mod Frame.W32) b in
+  mkFile num (map dec_batch recs) (match st with Frame.Torn => true | Frame.Clean => false end).
